@@ -213,6 +213,20 @@ ValueStart(s, title, ovr) ==
           /\ hist' = Append(hist, Act("ValueStart", s, IF ovr THEN "override" ELSE "", Absent, "", 0, title, c))
     /\ UNCHANGED <<streams, delivered>>
 
+(* value(): the synchronous wrapper -- start, executor returns / raises at once, outcome delivered, one step *)
+ValueSync(s, title, kind, val) ==
+    /\ Len(hist) < MaxSteps /\ On({"exec"})
+    /\ LET p == streams[s]
+           c == ncalls + 1
+           ast == RemoveEmptyMD(View(heap, p.root))
+           call == [c |-> c, s |-> s, target |-> RootDs(heap, p.root), ast |-> ast, title |-> title]
+       IN /\ heap' = IF CleanInPlace THEN CleanHeap(heap, p.root) ELSE heap
+          /\ execLog' = Append(execLog, call)
+          /\ delivered' = Append(delivered, [c |-> c, kind |-> kind, val |-> val])
+          /\ ncalls' = c
+          /\ hist' = Append(hist, Act("ValueSync", s, kind, Absent, "", val, title, c))
+    /\ UNCHANGED <<streams, pending>>
+
 Complete(i, kind, val) ==
     /\ Len(hist) < MaxSteps
     /\ i \in 1..Len(pending)
@@ -231,6 +245,7 @@ Next ==
           \/ \E v1 \in Vals, v2 \in Vals : QMetaData2Act(s, v1, v2)
           \/ Terminal(s)
           \/ \E title \in Titles, ovr \in Ovrs : ValueStart(s, title, ovr)
+          \/ \E title \in Titles : ValueSync(s, title, "ret", 7) \/ ValueSync(s, title, "raise", 0)
     \/ \E i \in 1..Len(pending) : \E val \in RetVals : Complete(i, "ret", val)
     \/ \E i \in 1..Len(pending) : Complete(i, "raise", 0)
 
@@ -253,9 +268,9 @@ QmdOK == \A s \in 1..NStreams : \A k \in Keys :
 
 (* C12 *)
 NoExecWhileBuilding ==
-    [][(hist' # hist /\ hist'[Len(hist')].act \notin {"ValueStart"}) => execLog' = execLog]_vars
+    [][(hist' # hist /\ hist'[Len(hist')].act \notin {"ValueStart", "ValueSync"}) => execLog' = execLog]_vars
 ExactlyOneCall ==
-    [][(hist' # hist /\ hist'[Len(hist')].act = "ValueStart") => Len(execLog') = Len(execLog) + 1]_vars
+    [][(hist' # hist /\ hist'[Len(hist')].act \in {"ValueStart", "ValueSync"}) => Len(execLog') = Len(execLog) + 1]_vars
 RoutedAndClean ==
     \A i \in 1..Len(execLog) :
         LET e == execLog[i]  s == streams[e.s] IN
